@@ -330,7 +330,9 @@ Record conn := mkConn { core : state; tpaused : bool; hq : bool }.
 Inductive cop :=
 | Op (o : op)
 | ResetAux
-| ResumeP.
+| ResumeP
+| PeerOther.     (* a peer frame that means nothing to the senders (SETTINGS carrying only
+                    MAX_CONCURRENT_STREAMS / unknown ids, PING, ...): data_received still flushes *)
 
 Definition is_frame_op (o : op) : bool :=
   match o with WinStream _ _ | WinConn _ | SetInitWin _ | SetMaxFrame _ => true | _ => false end.
@@ -356,6 +358,7 @@ Definition cstep (c : conn) (o : cop) : conn * list chunk :=
         if hq c then (mkConn (fst (step (fst (step (core c) Resume)) Pause)) true false, [])
         else (mkConn (fst (step (core c) Resume)) false false, [])
       else (c, [])
+  | PeerOther => (mkConn (core c) (tpaused c) false, [])
   end.
 
 Fixpoint crun (c : conn) (ops : list cop) : conn * list chunk :=
